@@ -135,9 +135,19 @@ func instrumentFile(path string) ([]byte, []string, error) {
 		}
 		base := pkg + "." + recvName(fd) + fd.Name.Name
 		add(fd.Body.Lbrace+1, base)
-		nFor, nCase := 0, 0
+		nFor, nCase, nLock := 0, 0, 0
 		ast.Inspect(fd.Body, func(n ast.Node) bool {
 			switch x := n.(type) {
+			case *ast.ExprStmt:
+				// a point before every statement that takes a lock: the place
+				// between two critical sections where the scheduler can preempt
+				if call, ok := x.X.(*ast.CallExpr); ok {
+					if sel, ok := call.Fun.(*ast.SelectorExpr); ok && (sel.Sel.Name == "Lock" || sel.Sel.Name == "RLock") && len(call.Args) == 0 {
+						nLock++
+						inserts = append(inserts, ins{off(x.Pos()), fmt.Sprintf("verifrt.P(%q); ", fmt.Sprintf("%s#lock%d", base, nLock))})
+						sites = append(sites, fmt.Sprintf("%s#lock%d", base, nLock))
+					}
+				}
 			case *ast.ForStmt:
 				nFor++
 				add(x.Body.Lbrace+1, fmt.Sprintf("%s#for%d", base, nFor))
